@@ -686,7 +686,11 @@ func c04One(r *Run) {
 	r.Config["entry_point"] = t.name
 	r.Config["alteration"] = m.String()
 	r.Config["valid_len"] = fmt.Sprint(len(t.valid))
-	fails, _ := c04Battery(ti, t, []c04Mut{m}, 120*time.Second)
+	// the unaltered bytes first, then the alteration TWICE on the same target (same codec instance): a
+	// decoder that an earlier input leaves in a bad state (a lock it still holds, a half-built table) shows
+	// it on the next call
+	ctl := c04Mut{Kind: 7, Chunk: m.Chunk, ErrAt: -1}
+	fails, _ := c04Battery(ti, t, []c04Mut{ctl, m, m}, 120*time.Second)
 	r.Nontrivial = true
 	for _, f := range fails {
 		oracle := "no-panic"
